@@ -217,6 +217,13 @@ def run_check(prop: Prop, tier: str, seed: int, replay: str | None = None) -> in
     stream_stats: dict[str, dict] = {}
     samples = []
     driver_ok = build_ok and os.path.exists(leanio.DRIVER)
+    if not build_ok:
+        # a broken PROOF module does not stop the correspondence run: the driver (model only, no
+        # proof files, no regenerated tables behind theorems) is built on its own, so that the
+        # disagreeing / failing inputs are reported together with the broken obligation
+        with leanio.BuildLock():
+            drv_ok, _ = leanio.lake_build(["driver"])
+        driver_ok = drv_ok and os.path.exists(leanio.DRIVER)
     for st in prop.streams:
         srng = random.Random(rng.random())
         acc: dict = {}
